@@ -167,6 +167,10 @@ static bool in_teardown;
 /* "trusting 1": release / prel go by what the process itself was told (SUCCESS and no PREEMPTED since),
  * as a user program does, without first asking the library whether it still holds the thing */
 static bool trusting;
+/* objects a process held when it ended in the event being dispatched (ground truth "after-drop") */
+static bool dropped_obj[MAXOBJ];
+
+static void note_drops(const struct cmb_process *p);
 
 static void tr(const char *fmt, ...) __attribute__((format(printf, 1, 2)));
 static void tr(const char *fmt, ...)
@@ -249,6 +253,14 @@ static void log_ground_for_object(const int obj, const char *why)
             for (int m = 0; m < l; m++) if (links[m].obj == obj && links[m].cond == links[l].cond && links[m].active) seen = true;
             if (!seen) log_ground(links[l].cond, why, objs[obj].name);
         }
+    }
+}
+
+static void note_drops(const struct cmb_process *p)
+{
+    for (int k = 0; k < nobjs; k++) {
+        if (objs[k].kind == O_RES && cmb_resource_held_by_process(objs[k].ptr, p) != 0u) dropped_obj[k] = true;
+        else if (objs[k].kind == O_POOL && cmb_resourcepool_held_by_process(objs[k].ptr, p) != 0u) dropped_obj[k] = true;
     }
 }
 
@@ -698,6 +710,7 @@ static bool do_nonblocking(const struct sop *o, const int pid, const int opi, co
             else if (objs[k].kind == O_POOL) held[k] = cmb_resourcepool_held_by_process(objs[k].ptr, tg->p) != 0u;
         }
         CALLHDR(); tr(" %d %" PRIi64 " running=%d\n", o->tgt, o->i1, running ? 1 : 0);
+        if (running) note_drops(tg->p);
         if (o->tgt == pid) {
             /* stopping oneself does not return */
             me->blocked_op = -1;
@@ -958,10 +971,12 @@ static void *proc_main(struct cmb_process *me, void *ctx)
         }
         case OP_EXIT:
             tr("Z %" PRIu64 " %" PRIu64 " %a %d exit %" PRIi64 "\n", ++seqno, evno, cmb_time(), pid, o->i1);
+            note_drops(me);
             cmb_process_exit((void *)(intptr_t)o->i1);
             break;      /* not reached */
         case OP_RETURN:
             tr("Z %" PRIu64 " %" PRIu64 " %a %d return %" PRIi64 "\n", ++seqno, evno, cmb_time(), pid, o->i1);
+            note_drops(me);
             return (void *)(intptr_t)o->i1;
         default:
             (void)do_nonblocking(o, pid, sp->pc, 'C');
@@ -974,6 +989,7 @@ next_op:
         sp->pc++;
     }
     tr("Z %" PRIu64 " %" PRIu64 " %a %d return 0\n", ++seqno, evno, cmb_time(), pid);
+    note_drops(me);
     return NULL;
 }
 
@@ -1296,6 +1312,11 @@ int mode_sim(char *text, FILE *trace)
         evno++;
         if (evno > EVENT_CEILING) { ceiling = true; break; }
         if (!cmb_event_execute_next()) break;
+        for (int k = 0; k < nobjs; k++) {
+            /* what an ending process held has been handed back during this event: conditions observing it
+             * must have been told (the predicates of their waiters, evaluated by the harness, now) */
+            if (dropped_obj[k]) { dropped_obj[k] = false; log_ground_for_object(k, "after-drop"); }
+        }
         snapshot();
     }
     if (ceiling) {
